@@ -41,7 +41,16 @@ class GateListener:
         if dst[2] and isinstance(dst[2][-1], int):
             return      # array element destinations stay anonymous
         nm = '$file:%s:%s:%d' % (root, show(pos), size[1])
-        st.sym[nm] = (0, (1 << (8 * size[1])) - 1)
+        # the bytes are read into an object of some type: a signed destination sees the same bytes as a signed number
+        signed_dst = False
+        if dst[2] and isinstance(dst[2][-1], str):
+            for r_ in I.prog.records.values():
+                for x_ in r_['fields']:
+                    if x_['d'][2:] == dst[2][-1]:
+                        t_ = I.prog.type(x_['t'])
+                        signed_dst = bool(t_.get('sg')) and t_.get('bits') == 8 * size[1]
+        bits_ = 8 * size[1]
+        st.sym[nm] = (-(1 << (bits_ - 1)), (1 << (bits_ - 1)) - 1) if signed_dst else (0, (1 << bits_) - 1)
         old = st.mem.get(l)
         full = compare('==', got, size, st.sym) if is_int(got) else None
         st.mem[l] = sym(nm)
@@ -439,6 +448,10 @@ class DriverRules:
                                'T=%d %s: verification accepts %s' % (T, op, 'after the tag compare (S-CMP) returned true' if okc else
                                                                     'WITHOUT a true result of the tag compare function %s (%d calls)' % (self.tagcmp['q'], len(cmps))))
         rec.count('S-GATE gated effects', ngate, len(self.Ts))
+        # null dereferences on paths that ended there (no outcome state carries their log)
+        for op_, wh_, fn_, val_, path_ in sorted(set(self.D.nullderefs)):
+            if op_ in ('decrypt', 'verify'):
+                rec.ob('R11.a', 'R11.a@%s::null-dereference' % fn_, False, wh_, '%s: %s is dereferenced on a path steered by file bytes' % (op_, val_), path=list(path_))
         # summaries of the rules that otherwise only speak when they fail
         nver = sum(len(self.run('verify', T)[1]) for T in self.Ts)
         rec.ob('R12.b', 'R12.b@%s::verify-has-no-output-effect' % fkey(fv), not any(o.rule == 'R12.b' and o.ok is False for o in rec.obls), '%s:%s' % (fv['file'], fv['line']),
